@@ -136,7 +136,7 @@ class Workspace:
             if not os.path.exists(src):
                 raise LostAnchor("attach file %s missing in working tree" % u.attach)
             with open(src, "a") as f:
-                f.write('\n#[cfg(kani)]\n#[path = "%s"]\nmod verif_%s;\n' % (u.path, u.name))
+                f.write('\n#[cfg(kani)]\n#[path = "%s"]\npub(crate) mod verif_%s;\n' % (u.path, u.name))
         return self
 
     def __exit__(self, *a):
@@ -242,6 +242,7 @@ def classify(res, prop):
         "n_unreachable": 0,
         "n_undetermined": 0,
         "n_failure": 0,
+        "foreign": [],
     }
     for c in res["checks"]:
         d, st = c["desc"], c["status"]
@@ -267,6 +268,10 @@ def classify(res, prop):
         elif st == "FAILURE":
             out["n_failure"] += 1
         m = re.match(r"\[(C\d+)/([A-Za-z0-9_.-]+)\]", d)
+        if m and m.group(1) != prop:
+            # an obligation of another property that shares this unit: decided by that property's check
+            out["foreign"].append({"tag": m.group(1) + "/" + m.group(2), "status": st})
+            continue
         if m:
             out["tagged"].append({"tag": m.group(2), "status": st, "desc": d, "loc": c["loc"], "id": c["id"]})
             continue
@@ -364,8 +369,8 @@ def playback(ws, unit, fq_harness, check_ids, timeout_s, log_dir):
         src = os.path.join(ws.dir, unit.attach)
         s = open(src).read()
         s2 = re.sub(
-            r'#\[path = "[^"]*"\]\nmod verif_%s;' % re.escape(unit.name),
-            '#[path = "%s"]\nmod verif_%s;' % (unit_copy, unit.name),
+            r'#\[path = "[^"]*"\]\npub\(crate\) mod verif_%s;' % re.escape(unit.name),
+            '#[path = "%s"]\npub(crate) mod verif_%s;' % (unit_copy, unit.name),
             s,
         )
         open(src, "w").write(s2)
